@@ -150,4 +150,11 @@ Bound == nfree <= MaxFree
 \* behaviour emission for the replay direction (spec -> code): one JSON line per behaviour
 EmitAt(cond) == (cond /\ TrackObs) => PrintT(<<"BEHAVIOUR", ToJson(hist)>>)
 EmitAtBound == EmitAt(nfree = MaxFree)
+\* ... or as soon as a step was refused (behaviours that end in a refusal never reach the bound)
+LastRefused == Len(hist) > 0 /\ LET h == hist[Len(hist)] IN "res" \in DOMAIN h /\ h.res # "Ok"
+EmitAtBoundOrRefusal == EmitAt(nfree = MaxFree \/ (phase > PrefixLen /\ LastRefused))
+\* the same with the full term of every value id (for the byte-exact evaluator, C09)
+EmitTermsAtBound ==
+    (nfree = MaxFree /\ TrackObs) =>
+        PrintT(<<"BEHAVIOUR", ToJson([events |-> hist, terms |-> [i \in 1..Len(tbl) |-> Ast(tbl[i])]])>>)
 =============================================================================
